@@ -13,14 +13,14 @@ EXHAUSTIVE = False
 INSITU = {"k": "tokenisation"}
 TECHNIQUE = "runtime monitoring: complete run-time enumeration of each configuration's vocabulary + closure contract on the real tokenise"
 RULE = ("configurations from the lattice 16 flag combinations x velocity bins {1,2,3,4,5,8,16,32,127 and irregular counts} x "
-        "tracks 1-4 x 5 pitch ranges x 5 note-value sets x 6 step-size sets; for each the COMPLETE vocabulary is enumerated "
+        "tracks 1-4 x 5 pitch ranges x 7 note-value sets x 6 step-size sets x 4 time-signature ranges; each is followed by a sibling configuration differing in exactly one parameter built in the same process; for each the COMPLETE vocabulary is enumerated "
         "(ids are exactly 0..size-1, reported size, decode(encode(t)) and encode(decode(i)) for every member, detokenise and "
         "get_info accept every member, key set equals the structural reference built from the configuration) and 4 valid "
         "pieces are tokenised under the closure contract. Irregular bin counts form a separate stratum (known finding). "
         "A configuration is non-trivial when its whole vocabulary was enumerated; distinct by parameters.")
 PLAN = {"quick": {"cases": 320, "jobs": 4, "timeout": 900},
         "thorough": {"cases": 17000, "jobs": 16, "timeout": 3000, "budget_s": 420}}
-FLOORS = {"quick": {"c02.tokens_enumerated": 250000, "tokenise.closure.armed": 600, "#c02.flags.": 16, "c02.configurations": 280},
+FLOORS = {"quick": {"c02.tokens_enumerated": 250000, "tokenise.closure.armed": 600, "#c02.flags.": 16, "c02.configurations": 280, "c02.sibling_configurations": 200},
           "thorough": {"c02.tokens_enumerated": 10000000, "#c02.flags.": 16}}
 
 
@@ -33,11 +33,31 @@ def make_case(rng, i, tier):
     if size > 60000:
         cfg["pitch"] = [60, 60 + max(0, 60000 // max(1, size // (cfg["pitch"][1] - cfg["pitch"][0] + 1)) - 1)]
         cfg["pitch"][1] = max(cfg["pitch"][0], min(cfg["pitch"][1], 127))
+    cfg["tsr"] = rng.choice([[2, 16], [2, 16], [1, 16], [2, 24], [4, 12]])
+    # a sibling configuration differing in exactly one parameter, constructed right after the first one in the same process
+    # (a vocabulary cache keyed too coarsely would hand the sibling the wrong vocabulary)
+    sib = dict(cfg, flags=list(cfg["flags"]), pitch=list(cfg["pitch"]))
+    which = rng.choice(["tsr", "tsr", "pitch", "steps", "values", "tracks", "flag", "bins"])
+    if which == "tsr":
+        sib["tsr"] = rng.choice([x for x in ([2, 16], [1, 16], [2, 24], [4, 12], [2, 20]) if x != cfg["tsr"]])
+    elif which == "pitch":
+        sib["pitch"] = [cfg["pitch"][0], min(127, cfg["pitch"][1] + 1)] if cfg["pitch"][1] < 127 else [cfg["pitch"][0] + 1, 127]
+    elif which == "steps":
+        sib["steps"] = rng.choice([x for x in tc.STEPSETS if x != cfg["steps"]])
+    elif which == "values":
+        sib["values"] = rng.choice([x for x in tc.VALUESETS if x != cfg["values"]])
+    elif which == "tracks":
+        sib["tracks"] = cfg["tracks"] % 4 + 1
+    elif which == "flag":
+        k = rng.randrange(1, 4)
+        sib["flags"][k] = not sib["flags"][k]
+    elif which == "bins" and not irregular:
+        sib["bins"] = rng.choice([b for b in (1, 2, 3, 4, 5, 8, 16) if b != cfg["bins"]])
     pieces = []
     if not irregular:
         for _ in range(4):
             pieces.append(tc.valid_piece(rng, cfg, stratum="A", nseg=(1, 2), nbars=(1, 2), max_notes=5))
-    return {"cfg": cfg, "pieces": pieces, "stratum": "V" if irregular else "R"}
+    return {"cfg": cfg, "pieces": pieces, "stratum": "V" if irregular else "R", "sibling": None if irregular else sib, "sibling_differs_in": which}
 
 
 def classify(f, case):
@@ -115,6 +135,31 @@ def run(case, ctx):
             fails.append(fail("encode_fails_on_tokenise_output", str(e)))
         except Exception as e:
             fails.append(fail(f"tokenise_raises.{type(e).__name__}", str(e)[:200]))
+    sib = case.get("sibling")
+    if sib:
+        LOG.n("c02.sibling_configurations")
+        try:
+            t2 = tc.make_tok(sib, cache=False)
+            e2 = tc.expected_vocabulary(sib, list(t2.velocity_bins))
+            if set(e2) != set(t2.dictionary) or sorted(t2.dictionary.values()) != list(range(len(t2.dictionary))) \
+                    or t2.dictionary_size != len(t2.dictionary):
+                fails.append(fail("sibling_configuration_vocabulary", None, w={"differs_in": case.get("sibling_differs_in"),
+                                  "missing": sorted(set(e2) - set(t2.dictionary))[:4], "unexpected": sorted(set(t2.dictionary) - set(e2))[:4]}))
+            # closure on the sibling: a piece with a signature change at the top of ITS signature range
+            hi = (sib.get("tsr") or (2, 16))[1]
+            num = hi if hi % 2 else hi // 2
+            den = 8 if hi % 2 else 4
+            L = 96 * num // den
+            if all(orc.coins(tc.steps_of(sib), L)[x] for x in (L,)) and sib["pitch"][0] <= sib["pitch"][1]:
+                p0 = sib["pitch"][0]
+                v0 = tc.values_of(sib)[0]
+                trk = [{"notes": [[0, p0, 0, v0, 90]], "extra": [["ts", 0, num, den]] if k == 0 else [], "pad": L} for k in range(sib["tracks"])]
+                toks = t2.tokenise([gen.build_seq(t) for t in trk])
+                t2.encode(toks)
+        except KeyError as e:
+            fails.append(fail("sibling_encode_fails_on_tokenise_output", str(e), w={"differs_in": case.get("sibling_differs_in"), "token": str(e)}))
+        except Exception as e:
+            LOG.n(f"c02.observed.sibling_raises.{type(e).__name__}")
     return {"nontrivial": True, "fails": fails,
             "shape": ("".join("1" if x else "0" for x in cfg["flags"]), cfg["bins"], cfg["tracks"], case["stratum"]),
             "observed": {"vocabulary": n, "tokens_from_tokenise": ntok, "sample_keys": list(d)[4:8] + list(d)[-2:]}}
